@@ -104,7 +104,8 @@ def SingleTx (sk : List Sk) : Bool :=
 inductive Kind
   | replace (t : Nat)      -- key ↦ value, overwriting (storeSession, saveIdentity, storeSenderKey)
   | insertNew (t : Nat)    -- key ↦ value, key must be new (storePreKey, storeSignedPreKey, own identity)
-  | remove (t : Nat)       -- delete key (removePreKey, deleteSession, deleteAllSessions, removeSignedPreKey)
+  | remove (t : Nat)       -- delete key (deleteSession, deleteAllSessions, removeSignedPreKey)
+  | retire (t : Nat)       -- the row stays, its value becomes the tombstone given as value argument (removePreKey)
   | markSent (t : Nat)     -- set the flag of the given keys (setAsSent with two ids)
 deriving Repr, DecidableEq
 
@@ -112,6 +113,7 @@ def allowed : Kind → List (List Sk)
   | .replace t => [[.begin, .del t 0, .ins t 0, .commit], [.begin, .insRepl t 0, .commit]]
   | .insertNew t => [[.begin, .ins t 0, .commit]]
   | .remove t => [[.begin, .del t 0, .commit]]
+  | .retire t => [[.begin, .updVal t 0, .commit]]
   | .markSent t => [[.begin, .updFlag t 0, .updFlag t 1, .commit]]
 
 end Yow.Store
